@@ -212,7 +212,14 @@ def _init_arg(cfg, kind="cp"):
     if cfg["init"] != "user":
         return cfg["init"], None
     w, fs = user_init_cp(cfg)
-    return (None if w is None else w.copy(), [f.copy() for f in fs]), (w, fs)
+    if cfg.get("init_absorb") and w is not None:      # same tensor, weights absorbed into factor 0
+        fs = [fs[0] * w.reshape(1, -1)] + fs[1:]
+        w = None
+    arg = (None if w is None else w.copy(), [f.copy() for f in fs])
+    if cfg.get("init_as") == "object":
+        from tensorly.cp_tensor import CPTensor
+        arg = CPTensor(arg)
+    return arg, (w, fs)
 
 
 def run_alg(cfg, data, cap, with_cb=False):
@@ -351,9 +358,16 @@ def _run_alg(cfg, data, cap, with_cb, tl, D):
             p2 = random_parafac2(shapes, rank, random_state=seed + 3, full=False)
             w = {"none": None, "ones": np.ones(rank), "positive": np.arange(1, rank + 1) * 1.5,
                  "mixed": np.array([(-2.0) ** (j + 1) for j in range(rank)])}[cfg.get("init_weights", "none")]
+            if cfg.get("init_absorb") and w is not None:
+                p2 = (p2[0], [np.array(p2[1][0]) * w.reshape(1, -1)] + [np.array(f) for f in p2[1][1:]], p2[2])
+                w = None
             if cfg.get("init_as", "parafac2") == "cp":
-                rawinit = ("cp", w, [np.array(f) for f in p2[1]])
-                init = (None if w is None else w.copy(), [np.array(f) for f in p2[1]])
+                # a CP tensor of shape (n_slices, rows, cols): needs slices of equal height
+                rngc = _rng(seed * 31 + 6)
+                Bfull = rngc.standard_normal((shapes[0][0], rank))
+                cpf = [np.array(p2[1][0]), Bfull, np.array(p2[1][2])]
+                rawinit = ("cp", w, cpf)
+                init = (None if w is None else w.copy(), [f.copy() for f in cpf])
             else:
                 rawinit = ("parafac2", w, [np.array(f) for f in p2[1]], [np.array(P) for P in p2[2]])
                 init = (None if w is None else w.copy(), [np.array(f) for f in p2[1]], [np.array(P) for P in p2[2]])
@@ -532,6 +546,51 @@ def cond_bucket(cfg, dec):
     return 0
 
 
+def warm_measure(cfg, data, k, dec, rawinit):
+    """C14 measurements: distance to the tensor the initialisation represents, bit-identity per mode, twin run."""
+    kind = dec[0]
+    w = {}
+    if kind in ("cp", "cp_sparse"):
+        iw, ifs = rawinit
+        init_dense = cp_dense(iw, ifs)
+        w["init_dev"] = qe(rel(cp_dense(dec[1], dec[2]) - init_dense, init_dense))
+        w["bit_identical"] = [bit_identical(a, b) for a, b in zip(dec[2], ifs)]
+        if cfg.get("twin"):
+            res2 = run_alg(dict(cfg, init_absorb=True), copy.deepcopy(data), k)
+            d2 = res2["decomp"]
+            a, b = cp_dense(dec[1], dec[2]), cp_dense(d2[1], d2[2])
+            w["twin_dev"] = qe(rel(a - b, init_dense))
+    elif kind == "tucker":
+        icore, ifs = rawinit
+        init_dense = tucker_dense(icore, ifs)
+        w["init_dev"] = qe(rel(tucker_dense(dec[1], dec[2]) - init_dense, init_dense))
+        w["bit_identical"] = [bit_identical(a, b) for a, b in zip(dec[2], ifs)]
+    elif kind == "parafac2":
+        if rawinit[0] == "parafac2":
+            _, iw, ifs, iPs = rawinit
+            a = p2_slices(dec[1], dec[2], dec[3])
+            b = p2_slices(iw, ifs, iPs)
+            num = math.sqrt(sum(np.linalg.norm(x - y) ** 2 for x, y in zip(a, b)))
+            den = math.sqrt(sum(np.linalg.norm(y) ** 2 for y in b))
+            w["init_dev"] = qe(num / den)
+        else:
+            # a CP start carries no projections: the factors (with weights) must be what was supplied
+            _, iw, ifs = rawinit
+            a = np.stack(p2_slices(dec[1], dec[2], dec[3]))
+            b = cp_dense(iw, ifs)
+            w["init_dev"] = qe(rel(a - b, b))
+        w["bit_identical"] = [False, False, False]
+        if cfg.get("twin") and rawinit[1] is not None:
+            res2 = run_alg(dict(cfg, init_absorb=True), copy.deepcopy(data), k)
+            d2 = res2["decomp"]
+            a = p2_slices(dec[1], dec[2], dec[3])
+            b = p2_slices(d2[1], d2[2], d2[3])
+            num = math.sqrt(sum(np.linalg.norm(x - y) ** 2 for x, y in zip(a, b)))
+            den = math.sqrt(sum(np.linalg.norm(y) ** 2 for y in data))
+            w["twin_dev"] = qe(num / den)
+    return w
+
+
 def record_trace(cfg, K=K_QUICK):
     """All events of one trace: Config, Prefix(0..K), Callback(...)."""
     tid = cfg["id"]
@@ -561,6 +620,11 @@ def record_trace(cfg, K=K_QUICK):
         except Exception as ex:
             ev["true"] = QNAN
         ev["cond"] = cond_bucket(cfg, dec)
+        if cfg["init"] == "user" and res.get("rawinit") is not None:
+            try:
+                ev["warm"] = warm_measure(cfg, data, k, dec, res["rawinit"])
+            except Exception as ex:
+                return [{"id": tid, "harness_error": "warm_measure: %r" % (ex,)}]
         ev["st"] = structure(cfg, data if cfg["alg"] not in ("parafac2", "cmtf") else (data if cfg["alg"] != "cmtf" else data[0]), dec) \
             if cfg["alg"] != "parafac2" else structure(cfg, None, dec)
         events.append(ev)
@@ -730,4 +794,58 @@ def driver_configs(tier, seed, algs=None):
                 tol=str(rng.choice(["zero", "loose"])))
     if algs:
         cfgs = [c for c in cfgs if c["alg"] in algs]
+    return cfgs
+
+
+def warm_configs(tier, seed):
+    """C14 domain: user initialisations with unit / positive / negative / mixed weights, every subset of fixed modes."""
+    rng = _rng(seed + 303)
+    cfgs = []
+
+    def add(alg, **kw):
+        c = {"alg": alg, "seed": int(rng.randint(0, 10**6)), "init": "user", "caps": [0, 1, 2, 3, 5]}
+        c.update(kw)
+        c["id"] = "w%s-%03d" % (alg, len([x for x in cfgs if x["alg"] == alg]))
+        cfgs.append(c)
+    import itertools
+    shape = [4, 5, 3]
+    subsets = [list(s) for r in range(0, 4) for s in itertools.combinations(range(3), r)]
+    # CP-ALS: all weight kinds, twin runs; integer inits make the zero-budget comparison exact
+    for wk in ("none", "ones", "positive", "negative", "mixed", "int_mixed"):
+        add("parafac", shape=shape, rank=2, data="generic", init_weights=wk, init_kind="int" if wk == "int_mixed" else "float",
+            tol="zero", twin=wk not in ("none", "ones"), normalize=False)
+        add("parafac", shape=[3, 4, 2, 3], rank=2, data="lowrank", init_weights=wk, tol="loose", twin=wk not in ("none", "ones"),
+            init_as="object")
+    for fx in subsets:
+        add("parafac", shape=shape, rank=2, data="generic", init_weights=str(rng.choice(["none", "ones"])), tol="zero", fixed=fx)
+    add("parafac", shape=[5, 4], rank=2, data="generic", init_weights="mixed", tol="zero", twin=True)
+    # non-negative CP (both): non-negative user start, positive weights
+    for alg in ("nn_parafac", "nn_parafac_hals"):
+        for wk in ("none", "ones", "positive"):
+            add(alg, shape=shape, rank=2, data="nonneg", init_kind="nonneg", init_weights=wk, tol="tiny", twin=wk == "positive")
+        for fx in subsets[:7]:
+            add(alg, shape=shape, rank=2, data="nonneg", init_kind="nonneg", init_weights="none", tol="tiny", fixed=fx)
+    # constrained CP
+    for wk in ("none", "positive", "mixed"):
+        # no twin runs: a penalised / ADMM-split problem is not invariant to moving scale between factors
+        add("constrained_parafac", shape=shape, rank=2, data="generic", init_weights=wk, tol="zero", constraints={"l2_square_reg": 0.01})
+    add("constrained_parafac", shape=shape, rank=2, data="nonneg", init_kind="nonneg", init_weights="none", tol="zero",
+        constraints={"non_negative": True})
+    for fx in subsets[:7]:
+        add("constrained_parafac", shape=shape, rank=2, data="nonneg", init_kind="nonneg", init_weights="none", tol="zero",
+            constraints={"non_negative": True}, fixed=fx)
+    # Tucker with fixed factors / plain user init
+    add("tucker", shape=shape, rank=[2, 3, 2], data="generic", tol="zero")
+    for fx in subsets[1:7]:
+        add("tucker", shape=shape, rank=[2, 3, 2], data="generic", tol="zero", fixed=fx)
+    # NN Tucker HALS
+    add("nn_tucker_hals", shape=shape, rank=[2, 2, 2], data="nonneg", tol="zero", algorithm="fista", caps=[0, 1, 2])
+    for fx in ([0], [1], [0, 1], [2]):
+        add("nn_tucker_hals", shape=shape, rank=[2, 2, 2], data="nonneg", tol="zero", algorithm="fista", fixed=fx, caps=[0, 1, 2])
+    add("nn_tucker", shape=shape, rank=[2, 2, 2], data="nonneg", tol="zero", caps=[0, 1, 2])
+    # PARAFAC2 from a PARAFAC2 tensor and from a CP tensor
+    for wk in ("none", "ones", "positive", "mixed"):
+        for init_as in ("parafac2", "cp"):
+            add("parafac2", shape=[3, 0, 4], rows=[5, 5, 5] if init_as == "cp" else [4, 5, 4], rank=2, data="generic", init_weights=wk,
+                init_as=init_as, tol="tiny", twin=wk in ("positive", "mixed"))
     return cfgs
